@@ -2,6 +2,7 @@ import GV.Basic.Hex
 import GV.Model.MapKey
 import GV.Model.GoMap
 import GV.Spec.MapKey
+import GV.Model.MapKeyHash
 
 /-
   Driver for C15. Two stateful topics.
@@ -203,6 +204,36 @@ def rangeMut (c : Case) (t : Nat) (del ins : List Nat) (w : Int) : String × Cas
     if b.nanVisits < nanInit || b.nanVisits > nanInit + nanIns then viol := viol + 1
     return (s!"R {need} {once} {viol}", { c with ms := ⟨some l.jm, l.st⟩ })
 
+/-- grid types: i s e sl mp fn | a<n>,<t> | st<n>,(N|B|M),<t>,... -/
+partial def parseGrid : List String → Option (GV.Spec.GoComparable.Ty × List String)
+  | [] => none
+  | t :: rest =>
+    if t == "i" then some (.int, rest)
+    else if t == "s" then some (.str, rest)
+    else if t == "e" then some (.iface, rest)
+    else if t == "sl" then some (.slice, rest)
+    else if t == "mp" then some (.map, rest)
+    else if t == "fn" then some (.func, rest)
+    else if t.startsWith "st" then
+      match (t.drop 2).toString.toNat? with
+      | some n =>
+        let rec fields : Nat → List String → Option (GV.Spec.GoComparable.Fields × List String)
+          | 0, r => some (.nil, r)
+          | k + 1, kd :: r =>
+            let kind : Option GV.Spec.GoComparable.FieldKind :=
+              if kd == "N" then some .named else if kd == "B" then some .blank else if kd == "M" then some .embedded else none
+            match kind, parseGrid r with
+            | some kind, some (ft, r') => (fields k r').map fun (fs, r'') => (.cons kind ft fs, r'')
+            | _, _ => none
+          | _, [] => none
+        (fields n rest).map fun (fs, r) => (.struct fs, r)
+      | none => none
+    else if t.startsWith "a" then
+      match (t.drop 1).toString.toNat?, parseGrid rest with
+      | some n, some (e, r) => some (.arr n e, r)
+      | _, _ => none
+    else none
+
 def parseForm (f : String) : Option RangeForm :=
   if f == "kv" then some .keyValue
   else if f == "k" then some .keyOnly
@@ -333,6 +364,14 @@ def handle (s : DSt) : List String → DSt × String
       match tid.toNat?, parseHex strhex, jsid.toNat? with
       | some tid, some str, some jsid => ({ s with reg := (tid, jsid) :: s.reg }, toHex str)
       | _, _, _ => (s, "bad-op")
+    | ["hash", ty] =>
+      -- `typ.comparable` and the outcome of a map operation keyed (directly / inside a struct key / inside an array key) by
+      -- an interface holding a value of this dynamic type
+      match parseGrid (ty.splitOn ",") with
+      | some (t, []) =>
+        let o := match GV.MapKeyHash.ifaceKeyOutcome t with | .key => "key" | .panicUnhashable => "panic"
+        (s, s!"{b01 (GV.MapKeyHash.typComparable t)} {o} {o} {o}")
+      | _ => (s, "bad-op")
     | ["enum", arity, maxlen, _] =>
       -- all tuples of `arity` strings over {$,\,a} up to length `maxlen`: `GV.Props.C15.join_esc_injective` (+ the `"$"`
       -- prefix of string keys) says distinct tuples get distinct keys, so the model's answer is just the count
